@@ -2,6 +2,7 @@ import WebpVerif.Model.Vp8Kernels
 import WebpVerif.Spec.LoopFilter
 import WebpVerif.Gen.Libwebp
 import WebpVerif.Lemmas.Vp8Ctx
+import WebpVerif.Lemmas.Vp8Mode
 
 /-!
 # C02 — VP8 key-frame reconstruction is bit-exact
@@ -273,5 +274,23 @@ def exFrame : Vp8Ctx.Frame :=
   ⟨2, 1, fun x _ => x == 0, fun _ _ => false, fun _ _ => true, fun bx _ => bx < 4, fun _ _ => false, fun _ _ => true⟩
 example : (Vp8Ctx.run exFrame).length = 49 ∧ ((Vp8Ctx.run exFrame).map (·.ctx)).take 10 = [0, 0, 1, 1, 1, 1, 2, 2, 2, 1] ∧
     (((Vp8Ctx.run exFrame).map (·.ctx)).drop 25).take 5 = [1, 0, 0, 0, 1] := by decide
+
+/-- **The sub-block mode contexts are the RFC rule.**  `Vp8Mode.run` models what
+    `read_macroblock_header` does with `top[mbx].bpred[12..16]` and `left.bpred[0..4]` (the modes
+    of the bottom row of the macroblock above and of the right column of the macroblock to the
+    left, overwritten sub-block by sub-block while a B_PRED macroblock is read, set to the implied
+    mode by a macroblock with a 16x16 mode, `left` reset at every row start).  For EVERY frame
+    size, every assignment of B_PRED / 16x16 modes and every pattern of sub-block modes, the two
+    contexts that select the probabilities of each sub-block mode read are the modes of the
+    sub-blocks above and to the left as RFC 6386 section 11.3 defines them (across macroblock
+    borders; a 16x16 macroblock counts as sixteen sub-blocks of its implied mode; B_DC_PRED
+    outside the frame). -/
+theorem subblock_mode_contexts_are_rfc (f : Vp8Mode.Frame) :
+    ∀ c ∈ Vp8Mode.run f, c.top = Vp8Mode.specTop f c ∧ c.left = Vp8Mode.specLeft f c :=
+  Vp8Mode.run_spec f
+
+-- non-vacuity: a 16x16 macroblock (implied mode 2) to the left of a B_PRED macroblock
+def exModes : Vp8Mode.Frame := ⟨2, 1, 0, fun x _ => x == 1, fun _ _ => 2, fun bx by' => (bx + by') % 10⟩
+example : ((Vp8Mode.run exModes).map fun c => (c.top, c.left)).take 6 = [(0, 2), (0, 4), (0, 5), (0, 6), (4, 2), (5, 5)] := by decide
 
 end C02
